@@ -8,10 +8,15 @@ from boot import pm, pt
 OK_EXC = ValueError  # ReplaceError, TransformError, UnicodeDecodeError are subclasses
 
 
+def same_map(a, b):
+    """two step maps describe the same thing (representation-independent: list vs tuple ...)"""
+    return list(a.ranges) == list(b.ranges) and bool(a.inverted) == bool(b.inverted)
+
+
 def triples_of(smap):
     """explicit (start, old, new) triples in pre-image coordinates from a library StepMap's raw
     ranges with their documented meaning (start, oldSize, newSize; `inverted` swaps roles)"""
-    r = smap.ranges
+    r = list(smap.ranges)
     out = []
     diff = 0
     for i in range(0, len(r), 3):
@@ -256,10 +261,10 @@ class ApplyMonitors:
             for i, st in enumerate(tr.steps):
                 m = tr.mapping.maps[i]
                 g = st.get_map()
-                if m.ranges != g.ranges or m.inverted != g.inverted:
+                if not same_map(m, g):
                     self.violation("C03", "transform.map_mismatch", {
                         "shape": core.step_kind(st), "index": i, "step": self.describe_step(st),
-                        "recorded": [m.ranges, m.inverted], "step_map": [g.ranges, g.inverted]})
+                        "recorded": [list(m.ranges), m.inverted], "step_map": [list(g.ranges), g.inverted]})
         if "C08" in self.on:
             self.guard("C08", self.c08_transform, tr)
         if ("C16" in self.on and self.is_core()) or "C10" in self.on:
@@ -346,7 +351,7 @@ class ApplyMonitors:
                 return
             g = st.get_map()
             m = tr.mapping.maps[i]
-            if m.ranges != g.ranges or m.inverted != g.inverted:
+            if not same_map(m, g):
                 self.violation("C04", "bookkeeping.map_mismatch", dict(det, index=i))
                 return
         # (3a) exact undo of the whole recorded history
